@@ -127,6 +127,39 @@ def check_schedules(case):
     return {"nontrivial": freed > 0, "labels": ["ok" if base[1][0] == "ok" else "err:" + base[1][1]], "sample": src[:300]}
 
 
+# core-language programs (closures, inheritance chains, comprehensions, recursion) under the same schedules
+from ..gen import printer as _P
+from ..gen import programs as _G
+from .c15 import chooser as _chooser
+
+
+@st.composite
+def core_program_case(draw):
+    c = draw(_G.programs(max_depth=draw(st.sampled_from([3, 4, 5]))))
+    c["choices"] = draw(st.lists(st.integers(0, 1000), min_size=6, max_size=20))
+    c["seeds"] = draw(st.lists(st.integers(1, 1 << 30), min_size=2, max_size=2))
+    return c
+
+
+def check_core_schedules(case):
+    src, _ = _P.print_tree(case["tree"], _chooser(case["choices"]), "minimal", "normal")
+    modes = [{"mode": "never"}, {"mode": "every", "n": 1}, {"mode": "every", "n": 2}, {"mode": "every", "n": 3}, {"mode": "every", "n": 7}, {"mode": "default"}] + \
+        [{"mode": "seeded", "seed": s, "one_in": 3} for s in case["seeds"]]
+    base = None
+    freed = 0
+    for m in modes:
+        r = util.request({"op": "eval", "src": src, "gc": m, "want": ["multi", "counters"], "fuel": 2_000_000, "max_stack": 500}, what=f"gc={m}: {src[:300]}")
+        k = outcome_key(r)
+        if k[0] == "fuel":
+            return {"labels": ["fuel"]}
+        if base is None:
+            base = (m, k)
+        elif k != base[1]:
+            raise Violation("schedule-dependent-outcome", f"outcome differs between gc={base[0]} and gc={m}: {str(base[1])[:300]} vs {str(k)[:300]} for {src[:400]}")
+        freed += r.get("gc_freed", 0)
+    return {"nontrivial": freed > 0, "labels": ["ok" if base[1][0] == "ok" else "err:" + base[1][1]], "sample": src[:300]}
+
+
 # ---------------------------------------------------------------------------------------------
 # (2) steady state
 
@@ -196,12 +229,12 @@ def check_steady(case):
 # ---------------------------------------------------------------------------------------------
 # (3) scripted heap vs reachability model
 
-OPS = ["alloc_w", "alloc_s", "edge", "deledge", "take", "clone", "upgrade", "downgrade", "drop", "gc", "gc"]
+OPS = ["alloc_w", "alloc_w", "alloc_s", "edge", "edge", "edge", "edge", "deledge", "take", "clone", "upgrade", "downgrade", "drop", "drop", "drop", "gc", "gc"]
 
 
 @st.composite
 def heap_case(draw):
-    n = draw(st.integers(1, 40))
+    n = draw(st.integers(4, 40))
     ops = []
     for _ in range(n):
         ops.append([draw(st.sampled_from(OPS)), draw(st.integers(0, 30)), draw(st.integers(0, 30))])
@@ -345,6 +378,7 @@ def check_enum(case):
 
 CHECKS = [
     Check("schedule_invariance", check_schedules, program_case, quick=120, thorough=4000),
+    Check("schedule_invariance_core_programs", check_core_schedules, core_program_case, quick=150, thorough=5000),
     Check("steady_state", check_steady, steady_case, quick=30, thorough=800),
     Check("scripted_heap_random", check_heap, heap_case, quick=500, thorough=20000),
     Check("scripted_heap_exhaustive", check_enum, enumerate_fn=enum_heaps, exhaustive=True),
